@@ -677,11 +677,11 @@ func (h *history) hash() uint64 {
 	var sb strings.Builder
 	fmt.Fprintf(&sb, "%s %v %v %s|", h.regime, h.th, h.thDefault, h.parent)
 	for _, p := range h.parents {
-		fmt.Fprintf(&sb, "P%d %v %d %d %v;", p.version, p.visible, p.ts.Unix(), p.commit.Unix(), p.mems)
+		fmt.Fprintf(&sb, "P%d %v %d %d %d %v;", p.version, p.visible, p.ts.Unix(), p.commit.Unix(), p.cs, p.mems)
 	}
 	for _, k := range h.kidKeys {
 		for _, v := range h.kids[k] {
-			fmt.Fprintf(&sb, "%s %d %v %d %d %v;", k, v.version, v.visible, v.ts.Unix(), v.commit.Unix(), v.refs)
+			fmt.Fprintf(&sb, "%s %d %v %d %d %d %v;", k, v.version, v.visible, v.ts.Unix(), v.commit.Unix(), v.cs, v.refs)
 		}
 	}
 	return kit.HashStr(11, sb.String())
@@ -698,7 +698,7 @@ func (h *history) summary() map[string]interface{} {
 		th += " (library default)"
 	}
 	return map[string]interface{}{
-		"regime": h.regime, "threshold": th, "parent": h.parent.String(), "parent_versions": len(h.parents),
+		"regime": h.regime, "dates_without_committed": h.dates, "threshold": th, "parent": h.parent.String(), "parent_versions": len(h.parents),
 		"children": len(h.kidKeys), "child_versions": nv, "uploads": len(h.uploads), "referential_integrity_broken": h.inconsistent,
 	}
 }
